@@ -7,6 +7,7 @@ import (
 	"sort"
 	"strconv"
 	"strings"
+	"verif/internal/m3u8x"
 
 	"github.com/bluenviron/mediacommon/v2/pkg/codecs/av1"
 	"github.com/bluenviron/mediacommon/v2/pkg/codecs/h264"
@@ -168,6 +169,33 @@ func C16(x *Ctx) {
 		}
 		if want := h.LeadingStream() + "_stream.m3u8" + q; va.URI != want {
 			x.fail("uri", "variant-uri", "%s: variant URI %q, expected %q", where, va.URI, want)
+		}
+		// the same playlist for every viewer, each with the query string of its own request
+		if r.MVAlt != nil {
+			x.Stats.Add("C16.second_viewer_checked", 1)
+			if !r.MVAlt.OK() {
+				x.fail("uri", "alt-status", "%s: index.m3u8?%s status %d", where, r.AltQuery, r.MVAlt.Status)
+			} else {
+				strip := func(body []byte, query string) string {
+					if query == "" {
+						return string(body)
+					}
+					return strings.ReplaceAll(string(body), "?"+query, "")
+				}
+				a, b := strip(r.MV.Resp.Body, c.Query), strip(r.MVAlt.Body, r.AltQuery)
+				ap := m3u8x.Parse(r.MVAlt.Body)
+				altq := ""
+				if r.AltQuery != "" {
+					altq = "?" + r.AltQuery
+				}
+				if ap.Multivariant == nil || len(ap.Multivariant.Variants) != 1 {
+					x.fail("uri", "alt-parse", "%s: index.m3u8%s is not a multivariant playlist with one variant", where, altq)
+				} else if want := h.LeadingStream() + "_stream.m3u8" + altq; ap.Multivariant.Variants[0].URI != want {
+					x.fail("uri", "alt-variant-uri", "%s: a request for index.m3u8%s got variant URI %q, expected %q", where, altq, ap.Multivariant.Variants[0].URI, want)
+				} else if a != b {
+					x.fail("uri", "alt-differs", "%s: index.m3u8%s and index.m3u8%s differ in more than the query string of their URIs", where, q, altq)
+				}
+			}
 		}
 		// CODECS
 		wantCodecs := map[string]bool{}
